@@ -516,21 +516,22 @@ val bracket_match :
   n -> ((n * nat) * nat) list -> ((nat * nat) * ((n * nat) * nat) list) option
 
 val bd16_run :
-  datasource -> bool -> bclass list -> nat -> nat -> (nat * n) list ->
-  ((n * nat) * nat) list -> bracket_pair list -> ((((n * nat) * nat)
+  datasource -> bool -> bclass list -> bclass list -> nat -> nat -> (nat * n)
+  list -> ((n * nat) * nat) list -> bracket_pair list -> ((((n * nat) * nat)
   list * bracket_pair list) * bool) res
 
 val bd16_runs :
-  enc -> datasource -> bool -> n list -> bclass list -> nat -> run list ->
-  ((n * nat) * nat) list -> bracket_pair list -> bracket_pair list res
+  enc -> datasource -> bool -> n list -> bclass list -> bclass list -> nat ->
+  run list -> ((n * nat) * nat) list -> bracket_pair list -> bracket_pair
+  list res
 
 val insert_pair : bracket_pair -> bracket_pair list -> bracket_pair list
 
 val sort_pairs : bracket_pair list -> bracket_pair list
 
 val identify_bracket_pairs_gen :
-  enc -> datasource -> bool -> n list -> irs -> bclass list -> bracket_pair
-  list res
+  enc -> datasource -> bool -> n list -> irs -> bclass list -> bclass list ->
+  bracket_pair list res
 
 val n0_scan :
   bclass list -> bclass -> bclass -> nat -> nat list -> bool -> bool ->
